@@ -793,6 +793,9 @@ CONFIGS = [
     ("x87", ["-march=x86-64", "-mfpmath=387"], (3,), (3,), ("ef", "ed"),
      "x87 arithmetic (__SSE_MATH__ undefined): the #else fallback branches of ModularExtended (only these rings are driven: "
      "nothing else in the anchor files depends on it and 80-bit intermediates are outside the models)"),
+    ("nocontract", ["-ffp-contract=off"], (3,), (3,), None,
+     "the tests' flags with floating-point contraction switched off: a*x+y is evaluated with TWO roundings (the unfused form of the "
+     "models); in `native`/`debug` g++ (GNU mode: -ffp-contract=fast) fuses it into one vfmadd -- both evaluations are driven"),
     ("debug", ["-D__GIVARO_DEBUG"], (3, 4), (1, 2, 3, 4), None,
      "__GIVARO_DEBUG: the diagnostic branches (division-by-zero throws) compiled in"),
 ]
@@ -898,6 +901,33 @@ def write_ppgen(chains):
     return d
 
 
+def contraction_probe(flags):
+    """does g++ with these flags fuse a*b+c into one instruction?  (g++ -S of a three-line function; cached by flags)"""
+    import hashlib
+    d = vf.mkdir(os.path.join(vf.CACHE, "c03fma-" + hashlib.sha256(" ".join(flags).encode()).hexdigest()[:16]))
+    res = os.path.join(d, "result.txt")
+    if os.path.exists(res):
+        return open(res).read().strip()
+    src = os.path.join(d, "probe.C")
+    open(src, "w").write("double c03_axpy(double a, double x, double y) { return a * x + y; }\n"
+                         "double c03_q(long a, long x, long y, double i) { return (double(a) * double(x) + double(y)) * i; }\n")
+    rc, out = vf.sh([vf.CXX] + list(flags) + ["-S", "-o", "-", src], timeout=300)
+    if rc != 0:
+        return "unknown (probe failed)"
+    r = "fused" if re.search(r"\bv?fn?m(add|sub)\d*[sp][sd]\b", out) else "two roundings"
+    open(res, "w").write(r + "\n")
+    return r
+
+
+def fma_instructions(binary):
+    """number of fused multiply-add instructions in a harness binary (objdump), None if objdump is not available"""
+    rc, out = vf.sh("objdump -d --no-show-raw-insn %s | grep -cE '\\bv?fn?m(add|sub)[0-9]*[sp][sd]\\b'" % binary, timeout=300)
+    try:
+        return int(out.strip().splitlines()[-1])
+    except (ValueError, IndexError):
+        return None
+
+
 def ring_part(ring):
     """which translation unit of harness/c03_modular.C (-DC03_PART=n) registers the ring"""
     r = ring.split("@")[0]
@@ -936,6 +966,9 @@ def build_harness_parts(quick=True, ppdir=None):
     bad = [j for j in jobs if res[j][0] is None]
     logs = "\n".join("[%s part %d]\n%s" % (j[0], j[1], res[j][1][-1500:]) for j in bad)
     if any(j[0] == "native" for j in bad):
+        # a g++ that did not finish within its time limit is a tooling problem (machine load), not a property of /repo
+        if all("[timeout after" in res[j][1] for j in bad if j[0] == "native"):
+            return "timeout", logs, bad
         return None, logs, bad
     out = {}
     for (name, k) in jobs:
@@ -1062,12 +1095,17 @@ def main(tier, replay=None):
     chains = pp_chains()
     ppdir = write_ppgen(chains)
     built, l2, bad = build_harness_parts(quick, ppdir)
+    if built == "timeout":
+        chk.cov["inconclusive"] = ["g++ did not finish compiling the native harness within its time limit (machine load): nothing was compared"]
+        chk.cov["floor_missed"] = ["no implementation stream, no correspondence, theorems not re-checked: THIS RUN SAYS NOTHING ABOUT /repo"]
+        return chk.finish()
     if built is None:
         chk.broke("implementation harness does not compile against /repo", l2)
         return chk.finish()
     himpl = built["native"]
     chk.cov.setdefault("phase_seconds", {})["build_harness_all_configurations"] = round(_t.time() - _t0, 1); _t0 = _t.time()
     inconclusive = []
+    floor_missed = []
     for name, k in bad:
         inconclusive.append("configuration %s (part %d) did not compile" % (name, k))
     if bad:
@@ -1094,6 +1132,8 @@ def main(tier, replay=None):
         selected[name] = sel
         cfg_ev[name] = {"flags": " ".join(vf.BASE_FLAGS + list(flags)), "what": what, "translation_units": sorted(built[name]),
                         "rings_driven": list(only) if only else "all rings of these units",
+                        "a*x+y in one expression": contraction_probe(vf.BASE_FLAGS + list(flags)),
+                        "fused_multiply_add_instructions_in_float_unit": fma_instructions(built[name][3]) if 3 in built[name] else None,
                         "macros": macros,
                         "branch_compiled": {"%s:%d %s" % (chains[k]["file"], chains[k]["line"], chains[k]["func"]):
                                             ("#%s %s" % tuple(chains[k]["dirs"][j][:2]) if j < len(chains[k]["dirs"]) else "(no branch: condition false)")
@@ -1122,9 +1162,20 @@ def main(tier, replay=None):
             d[ring] = tuple(br)
         exbr[name] = d
     if any(None in v for d in exbr.values() for v in d.values()):
-        chk.broke("modular-extended.inl no longer has exactly one branch selection per ModularExtended<T>::mul / ::reduce: "
-                  "the models (ex_*, dk_*, fb_*) cannot be matched to the compiled code", json.dumps({n: {r: list(v) for r, v in d.items()} for n, d in exbr.items()}))
-        return chk.finish()
+        # the function name above a conditional could not be recognised (reformatted source?): fall back to the order of the
+        # arithmetic conditionals in modular-extended.inl (float mul, double mul, float reduce, double reduce); if that does not fit
+        # either, the extended rings are compared with the oracle only in this run (recorded; not a verdict about /repo)
+        ks = [k for k, c in enumerate(chains) if c["file"] == "modular-extended.inl" and not all(_diagnostic_only(b) for b in c["bodies"])]
+        if len(ks) == 4 and all(len(chains[k]["dirs"]) == 3 for k in ks):
+            for name in selected:
+                g = [selected[name].get(k) for k in ks]
+                exbr[name] = {"ef": (g[0], g[2]), "ed": (g[1], g[3])}
+            inconclusive.append("function names above the conditionals of modular-extended.inl not recognised: branches matched by source order")
+        if any(None in v for d in exbr.values() for v in d.values()):
+            inconclusive.append("the preprocessor branches of ModularExtended::mul / ::reduce could not be matched to the models: "
+                                "extended rings compared with the oracle only")
+            floor_missed.append("correspondence of ModularExtended<float|double>: not evaluated")
+            exbr = {name: None for name in selected}
     # 0b. the advertised bounds, from the implementation
     rc, out, err = run_impl(himpl, ["%s 0 info\n" % r for r in ALL_RINGS], ALL_RINGS)
     if rc != 0 or len(out) != len(ALL_RINGS):
@@ -1139,7 +1190,13 @@ def main(tier, replay=None):
     # 1. proofs
     _t0 = _t.time()
     res = vf.coq_check_props(AREA)
-    chk.proof_result(res, AREA)
+    coq_timeout = (not res.get("ok")) and "[timeout after" in (res.get("log") or "") and not res.get("forbidden")
+    if coq_timeout:
+        # coqc/make did not finish within its time limit: tooling, not a broken proof
+        inconclusive.append("the Coq build of coq/C03 did not finish within its time limit (machine load): theorems NOT re-checked in this run")
+        floor_missed.append("theorems re-checked: 0 of %d" % len(res.get("theorems") or []))
+    else:
+        chk.proof_result(res, AREA)
     chk.cov.setdefault("phase_seconds", {})["coq"] = round(_t.time() - _t0, 1); _t0 = _t.time()
     # 2. model driver
     drv, l1 = vf.ocaml_build(AREA) if os.path.exists(os.path.join(vf.coq_dir(AREA), "ocaml", "model.ml")) else (None, "extraction did not run")
